@@ -101,6 +101,8 @@ func runC17(r *R) {
 			g, _ := Guard(fn, nil, c.(ssa.Instruction), NotC(LtC("maxSymlinks < 0", Is(ms), ConstIntVP(0))))
 			after := len(rl) == 1 && rl[0].Block().Dominates(c.Block())
 			r.Check(okDec && g && after, "C17-R2", fn, "walkMount(dest, target, maxSymlinks-1, …)", c.Pos(), "counter decremented, guarded by NOT maxSymlinks<0", "symlink chains/cycles are followed without a decreasing bound")
+			below, isC := ConstBool(a[3])
+			r.Check(isC && below, "C17-R2", fn, "walkMount(dest, target, …, walkMountsBelow=true)", c.Pos(), "a link target is a new source path: mounts beneath it are walked", "after following a symlink the collections mounted beneath the target are not walked: they appear under the real path but are silently missing under the link name")
 		}
 		okErr := false
 		for _, ret := range Returns(fn) {
